@@ -235,6 +235,100 @@ def xa_sum(interp, st, xa, dim, skipna=True):
     return mk_xa(st, odims, Arr(oshape, val, (), "real"), nan_out, coords, masks)
 
 
+def xa_mean(interp, st, xa, dim, skipna=True):
+    """mean(dim): the sum of the values present divided by their number; NaN where none is present (also for an empty
+    dimension).  With skipna=False a missing value makes the mean missing."""
+    dims = xa.fields["dims"]
+    if dim not in dims:
+        raise Unsupported(f"mean over missing dimension {dim}")
+    if xa.fields["masks"].get(dim) is not None:
+        raise Unsupported("mean over a lazily masked dimension")
+    ax = dims.index(dim)
+    a, nanarr = xa.fields["arr"], xa.fields["nan"]
+    n = a.shape[ax]
+    total = st.deref(xa_sum(interp, st, xa, dim, skipna))
+    tarr, tnan = total.fields["arr"], total.fields["nan"]
+    oshape = tarr.shape
+
+    def full(idx, i):
+        return tuple(idx[:ax]) + (i,) + tuple(idx[ax:])
+
+    def count(idx):
+        if nanarr is None or not skipna:
+            return n
+        bv = T.Fresh.int("c")
+        return T.make_sum(0, n, bv, T.to_real(T.to_z3(T.ite(nanarr.get(full(idx, bv)), 0, 1))))
+
+    def val(idx):
+        return T.div(tarr.get(idx), count(idx))
+
+    def nanv(idx):
+        none = T.cmp("<=", count(idx), 0)
+        return T.lor(none, tnan.get(idx)) if tnan is not None else none
+    nan_out = Arr(oshape, nanv, (), "bool")
+    if nanarr is None and interp is not None and interp.valid(st, T.to_z3(T.cmp(">", n, 0)), timeout=2000):
+        nan_out = None      # no missing input and a non-empty dimension: the mean is present
+    return mk_xa(st, total.fields["dims"], Arr(oshape, val, (), "real"), nan_out, total.fields["coords"], total.fields["masks"])
+
+
+def xa_positional(interp, st, xa, idx):
+    """xa[i0, i1, ...] / xa[..., lo:hi]: positional (numpy basic) indexing: integers drop the dimension, slices keep a
+    contiguous part of it (coordinates sliced alike).  Slice bounds must lie in the dimension (obligation; numpy would clamp)."""
+    from ..interp import Slice
+    items = [st.deref(i) if isinstance(i, Ref) else i for i in idx]
+    dims = xa.fields["dims"]
+    n_real = sum(1 for it in items if it is not Ellipsis)
+    if sum(1 for it in items if it is Ellipsis) > 1 or n_real > len(dims):
+        raise Unsupported("DataArray index with too many items")
+    if any(it is Ellipsis for it in items):
+        k = items.index(Ellipsis)
+        items = items[:k] + [Slice(None, None, None)] * (len(dims) - n_real) + items[k + 1:]
+    else:
+        items = items + [Slice(None, None, None)] * (len(dims) - n_real)
+    cur = xa
+    for dim, it in zip(dims, items):
+        if isinstance(it, Slice):
+            if it.lo is None and it.hi is None and it.step is None:
+                continue
+            if it.step is not None and it.step != 1:
+                raise Unsupported("DataArray slice with a step")
+            cur = st.deref(_xa_slice(interp, st, cur, dim, it.lo, it.hi))
+        elif T.is_num(it) and not isinstance(it, Fraction):
+            cur = xa_isel(interp, st, cur, {dim: it})
+        else:
+            raise Unsupported(f"DataArray positional index of type {type(it).__name__}")
+    return cur
+
+
+def _xa_slice(interp, st, xa, dim, lo, hi):
+    dims = xa.fields["dims"]
+    ax = dims.index(dim)
+    a, nanarr = xa.fields["arr"], xa.fields["nan"]
+    if xa.fields["masks"].get(dim) is not None:
+        raise Unsupported("slice of a lazily masked dimension")
+    n = a.shape[ax]
+    lo = 0 if lo is None else lo
+    hi = n if hi is None else hi
+    if (isinstance(lo, int) and lo < 0) or (isinstance(hi, int) and hi < 0):
+        raise Unsupported("negative slice bound on a DataArray")
+    if interp is not None and interp.ctx is not None and not (isinstance(lo, int) and lo == 0 and hi is n):
+        interp.ctx.oblige(st, "slice.in_range", T.land(T.cmp(">=", lo, 0), T.cmp("<=", lo, hi), T.cmp("<=", hi, n)))
+    length = T.sub(hi, lo)
+    c = interp.concrete_int(st, length) if interp is not None else None
+    if c is not None:
+        length = c
+    oshape = a.shape[:ax] + (length,) + a.shape[ax + 1:]
+
+    def mkget(src):
+        return lambda idx: src.get(tuple(idx[:ax]) + (T.add(lo, idx[ax]),) + tuple(idx[ax + 1:]))
+    coords = dict(xa.fields["coords"])
+    if dim in coords:
+        cd = coords[dim]
+        coords[dim] = Arr((length,), lambda idx, cd=cd: cd.get((T.add(lo, idx[0]),)), (), cd.sort)
+    return mk_xa(st, dims, Arr(oshape, mkget(a), (), a.sort), Arr(oshape, mkget(nanarr), (), "bool") if nanarr is not None else None,
+                 coords, xa.fields["masks"], xa.fields["name"])
+
+
 def xa_argmax(interp, st, xa, dim, skipna=True):
     dims = xa.fields["dims"]
     ax = dims.index(dim)
@@ -427,6 +521,14 @@ class XrPlugin:
                 sk = k.get("skipna", True)
                 return xa_sum(i, s, o, dim, True if sk is None else bool(sk))
             return method(sm)
+        if name == "mean":
+            def mean(i, s, a, k):
+                dim = s.deref(k["dim"]) if "dim" in k else (s.deref(a[0]) if a else None)
+                if not isinstance(dim, str):
+                    raise Unsupported("mean over all / several dimensions")
+                sk = s.deref(k.get("skipna", True))
+                return xa_mean(i, s, o, dim, True if sk is None else bool(sk))
+            return method(mean)
         if name == "argmax":
             return method(lambda i, s, a, k: xa_argmax(i, s, o, s.deref(k["dim"]) if "dim" in k else s.deref(a[0]),
                                                        skipna=(True if k.get("skipna", True) is None else bool(s.deref(k.get("skipna", True))))))
@@ -516,8 +618,19 @@ class XrPlugin:
         if isinstance(i, dict):
             return st.alloc(xa_isel(interp, st, o, i), "DataArray")
         if isinstance(i, tuple):
-            raise Unsupported("tuple index on a DataArray")
+            return st.alloc(xa_positional(interp, st, o, i), "DataArray")
         return st.alloc(xa_isel(interp, st, o, {dims[0]: i}), "DataArray")
+
+    def obj_as_array(self, interp, st, o):
+        """numpy's view of a DataArray (np.asarray / a store into an ndarray): its values, missing ones as NaN cells"""
+        if not is_xa(o):
+            return NotImplemented
+        if o.fields["masks"]:
+            raise Unsupported("array conversion of a lazily masked DataArray")
+        a, nn = o.fields["arr"], o.fields["nan"]
+        if nn is None:
+            return a
+        return Arr(a.shape, lambda ix: T.xr(a.get(ix), nn.get(ix)), (), "xreal")
 
     def special_len(self, interp, st, x):
         if is_xa(x):
